@@ -7,7 +7,7 @@ w, patch, checks = sys.argv[1], os.path.abspath(sys.argv[2]), sys.argv[3:] or ["
 root = "/scratch/mutcamp/w" + w
 env = dict(os.environ, VERIF_ROOT=root + "/verif", VERIF_REPO=root + "/repo", PYTHONPATH=root + "/repo", PYTHONHASHSEED="0")
 def sh(c, **k): return subprocess.run(c, shell=True, capture_output=True, text=True, env=env, **k)
-sh("rsync -a --delete /verif/tools/ %s/verif/tools/; rsync -a /verif/bin/ %s/verif/bin/; rsync -a --exclude='*.vo' --exclude='*.glob' --exclude='.*.aux' --exclude='*.vos' --exclude='*.vok' /verif/coq/ %s/verif/coq/" % (root, root, root))
+sh("rsync -a --delete /verif/tools/ %s/verif/tools/; rsync -a /verif/bin/ %s/verif/bin/; rsync -a --exclude='*.vo' --exclude='*.glob' --exclude='.*.aux' --exclude='*.vos' --exclude='*.vok' --exclude='Gen/' /verif/coq/ %s/verif/coq/" % (root, root, root))
 assert sh("cd %s/repo && git status --porcelain" % root).stdout.strip() == "", "scratch repo not clean"
 r = sh("cd %s/repo && git apply %s" % (root, patch)); assert r.returncode == 0, r.stderr
 res = {}
